@@ -307,6 +307,8 @@ func c03stream(w *World) {
 	pos := w.F.Draw(len(stream))
 	dam := append([]byte(nil), stream...)
 	kind := ""
+	where := fieldAt(stream, pos) // which field of which message the damage lands in
+	dmgByte := -1
 	switch w.F.Pick(4, 3, 3, 1) {
 	case 0:
 		kind = "substitute"
@@ -315,9 +317,15 @@ func c03stream(w *World) {
 			nb ^= 0x01
 		}
 		dam[pos] = nb
+		dmgByte = int(nb)
 	case 1:
 		kind = "insert"
-		dam = append(dam[:pos], append([]byte{byte(w.F.Draw(256))}, dam[pos:]...)...)
+		nb := byte(w.F.Draw(256))
+		if w.F.Chance(1, 4) {
+			nb = 0 // the one value that leaves a byte sum unchanged
+		}
+		dmgByte = int(nb)
+		dam = append(dam[:pos], append([]byte{nb}, dam[pos:]...)...)
 	case 2:
 		kind = "delete"
 		dam = append(dam[:pos], dam[pos+1:]...)
@@ -340,7 +348,11 @@ func c03stream(w *World) {
 	}
 	for _, a := range accepted {
 		if !authentic(a) {
-			w.Violate("damaged-message-accepted", "stream/"+kind, fmt.Sprintf("after a stream %s at offset %d the application's decoder accepted a message nobody sent: %s", kind, pos, short(a)))
+			key := "stream/" + kind + "/" + where
+			if dmgByte >= 0 {
+				key += fmt.Sprintf("/byte=%#02x", dmgByte)
+			}
+			w.Violate("damaged-message-accepted", key, fmt.Sprintf("after a stream %s at offset %d the application's decoder accepted a message nobody sent: %s", kind, pos, short(a)))
 		}
 	}
 	for _, m := range replies {
